@@ -100,7 +100,8 @@ class C13:
             '+ - * // % are exact, / and ** often), NaN, text and None cells for Mixed/Float assignment; plus random '
             'cases (incl. list-indexed column slices and derived, unattached columns), wrong-length and ill-typed operands '
             '(model only), col @ f / map_(f, col) for 12 functions, and SeriesColumn o scalar / per-row / per-sample / '
-            'full-matrix / Float-/IntColumn operands in both orders. '
+            'full-matrix / Float-/IntColumn operands in both orders, on whole columns and on column-level slices / index '
+            'lists of a longer table (mostly with as many rows as the depth, where per-row must win over per-sample). '
             'Observed: result type, row ids, cells; operands before/after; the cells read row-wise after dm.r = result. '
             'A case whose specified result is not computed exactly by the dyadic instance (non-dyadic quotient, '
             'non-integer exponent, zero divisor, infinities) is not judged and is counted as having left the model. '
@@ -402,6 +403,17 @@ class C13:
             dm.key = list(order[1])
             dm = ops.sort(dm, by=dm.key)
         col = dm.s
+        ocol = dm.o if opd['t'] == 'col' else None
+        # column-level slices / index lists: the series column stays attached to the (longer) table
+        if order[0] == 'colslice':
+            col = col[list(order[1])]
+            ocol = ocol[list(order[1])] if ocol is not None else None
+        elif order[0] == 'colrange':
+            col = col[order[1]:order[2]]
+            ocol = ocol[order[1]:order[2]] if ocol is not None else None
+        if not isinstance(col, _SeriesColumn):
+            return None
+        n = len(col)
         rows0 = [[float(v) for v in col._seq[i]] for i in range(n)]
         ids0 = [int(i) for i in col._rowid]
 
@@ -419,8 +431,8 @@ class C13:
             o_lit = '(SVec %s)' % L.lst(numlit(v) for v in vs)
             snap = list(vs)
         elif opd['t'] == 'col':
-            x = dm.o
-            vs = list(dm.o)
+            x = ocol
+            vs = list(ocol)
             o_lit = '(SVec %s)' % L.lst(numlit(v) for v in vs)
             snap = list(vs)
         else:
@@ -452,7 +464,7 @@ class C13:
                                                    L.lst(L.lst(L.fl(v) for v in row) for row in rrows))
                 if r is col or r._seq is col._seq or np.shares_memory(r._seq, col._seq):
                     pyfail = 'the result shares its samples with the source column'
-                if pyfail is None and len(r) == len(dm):
+                if pyfail is None and len(r) == len(dm) and order[0] not in ('colslice', 'colrange'):
                     try:
                         dm.r = r
                         for i in range(len(dm)):
@@ -466,7 +478,7 @@ class C13:
         if [[L.fl(v) for v in row] for row in now] != [[L.fl(v) for v in row] for row in rows0] or [int(i) for i in col._rowid] != ids0:
             pyfail = pyfail or 'the series column was changed by the operation'
         if opd['t'] == 'col':
-            after = list(dm.o)
+            after = list(ocol)
         elif opd['t'] == 'scalar':
             after = [x]
         elif opd['t'] == 'vec':
@@ -483,14 +495,30 @@ class C13:
             'tags': ['Series', op, 'x_o_col' if refl else 'col_o_x',
                      'operand:series_' + opd['t'] + ('_' + opd.get('as', '') if opd.get('as') else '') +
                      ('_per_row' if opd['t'] == 'vec' and len(opd['vs']) == n else '_per_sample' if opd['t'] == 'vec' else ''),
+                     'series_rows_eq_depth' if n == depth else 'series_rows_ne_depth',
                      'order:' + order[0], 'outcome:' + ('raise' if out[0] == 'exn' else 'ok')],
         }
 
     def _series_case(self, rng, op, refl, form, order):
         n = rng.choice([2, 3, 4])
         depth = rng.choice([2, 3, 4, 5])
+        ordv = None
+        m = n
+        if order in ('colslice', 'colrange'):
+            # a column-level slice of a longer table; often exactly `depth` rows long (a per-row operand then has the
+            # length of a per-sample operand: per row must win)
+            n = rng.choice([3, 4, 5, 6])
+            m = rng.choice([2, 3, min(n - 1, 4)])
+            depth = m if rng.random() < 0.7 else rng.choice([2, 3, 4, 5])
+            if order == 'colslice':
+                idx = list(range(n))
+                rng.shuffle(idx)
+                ordv = ['colslice', idx[:m]]
+            else:
+                a = rng.randint(0, n - m)
+                ordv = ['colrange', a, a + m]
         if form == 'vec_sample':
-            while depth == n:
+            while depth == m:
                 depth = rng.choice([2, 3, 4, 5])
 
         def val(pos):
@@ -506,9 +534,9 @@ class C13:
         if form == 'scalar':
             opd = {'t': 'scalar', 'v': pyobs.enc(val('x'))}
         elif form in ('vec_row', 'vec_sample'):
-            m = n if form == 'vec_row' else depth
+            k = m if form == 'vec_row' else depth
             opd = {'t': 'vec', 'as': rng.choice(['list', 'tuple'] + ([] if refl else ['array'])),
-                   'vs': [pyobs.enc(val('x')) for _ in range(m)]}
+                   'vs': [pyobs.enc(val('x')) for _ in range(k)]}
         elif form in ('col_KFloat', 'col_KInt'):
             vs = [val('x') for _ in range(n)]
             if form == 'col_KInt':
@@ -516,9 +544,9 @@ class C13:
             opd = {'t': 'col', 'kind': form[4:], 'vs': [pyobs.enc(v) for v in vs]}
         else:
             opd = {'t': 'mat', 'as': 'list' if refl else rng.choice(['list', 'array']),
-                   'vss': [[pyobs.enc(val('x')) for _ in range(depth)] for _ in range(n)]}
+                   'vss': [[pyobs.enc(val('x')) for _ in range(depth)] for _ in range(m)]}
         return {'mode': 'series', 'depth': depth, 'rows': [[pyobs.enc(v) for v in row] for row in rows], 'op': op,
-                'refl': refl, 'operand': opd, 'order': self._order(rng, n, order)}
+                'refl': refl, 'operand': opd, 'order': ordv or self._order(rng, n, order)}
 
     # ---- generator ------------------------------------------------------
     def _num(self, rng, kind, nonzero=False, small=False):
@@ -711,7 +739,7 @@ class C13:
         for op in OPS:
             for refl in (False, True):
                 for form in ['scalar', 'vec_row', 'vec_sample', 'mat'] + ([] if refl else ['col_KFloat', 'col_KInt']):
-                    for order in orders:
+                    for order in orders + ['colslice', 'colrange']:
                         for _ in range(1 if tier == 'quick' else 6):
                             add(self._series_case(rng, op, refl, form, order))
         # col @ f and map_(f, col)
@@ -728,7 +756,7 @@ class C13:
     # ---- shrinking / reporting --------------------------------------------
     def shrink_candidates(self, inp):
         if inp.get('mode') == 'series':
-            if inp.get('order', ['natural'])[0] != 'natural':
+            if inp.get('order', ['natural'])[0] not in ('natural', 'colslice', 'colrange'):
                 c = dict(inp)
                 c['order'] = ['natural']
                 yield c
